@@ -569,6 +569,20 @@ def r13_lexicon_lookups_by_id_and_version(ctx, res):
                 if not __import__('re').search(r'(?<![\w.])(?:\w+\.)?version\s*(=|is|glob|like)', cond):
                     res.find(key, s.loc, f'{s.func.qualname} looks a lexicon up with `{cond[:80]}` - by id without the version: with two installed '
                                          f'versions the first one is taken')
+    # the same through the query layer: a related lexicon (base, provider) resolved with find_lexicons needs id AND version
+    for f in ctx.repo.all_funcs():
+        if f.module.short != '_add' or f.name == 'remove':
+            continue
+        for node in walk_no_nested(f.node):
+            if isinstance(node, ast.Call) and norm(node.func).split('.')[-1] == 'find_lexicons':
+                arg = next((k.value for k in node.keywords if k.arg == 'lexicon'), node.args[0] if node.args else None)
+                n += 1
+                key = f'lexicon-lookup:{f.key}:find_lexicons'
+                res.inst(key, f.module.loc(node), norm(node)[:80])
+                t = norm(arg) if arg is not None else ''
+                if 'format_lexicon_specifier(' not in t and 'version' not in t:
+                    res.find(key, f.module.loc(node), f'{f.qualname} resolves a lexicon with `{norm(node)[:80]}` - a bare id selects the most '
+                                                      f'recently added version, not the version the document names')
     if n < 2:
         raise AnalysisError(f'only {n} lexicon look-ups by id found in wn/_add.py')
 
@@ -590,6 +604,31 @@ def r15_remove_selects_what_the_specifier_means(ctx, res):
     r3_match_shape(ctx, res)
 
 
+def r16_skip_depends_on_the_database_only(ctx, res):
+    """whether a lexicon of a resource is skipped is decided by what is INSTALLED - already there, or (for an extension) base not
+    there - never by what happens to the other lexicons of the same resource: otherwise the same file gives different results
+    depending on the history (an extension removed and re-added from the file it came with its base).  On the effect summary of
+    _add._precheck: the stores `skipmap[key] = True` are guarded by look-ups in `lexicons` only."""
+    import re
+    from ..speccheck import view
+    v = view(ctx, '_add', '_precheck')
+    rets = [r for r in v.rows if r[0] == 'return' and re.fullmatch(r'#\d+', r[1])]
+    key = 'skip-decision:database-only'
+    if len(rets) != 1:
+        res.inst(key, v.loc(), 'skip map not identified')
+        res.find(key, v.loc(), '_precheck no longer returns its skip map')
+        return
+    cell = rets[0][1]
+    trues = [r for r in v.rows if r[0] == 'store' and r[1].startswith(cell + '[') and r[1].endswith('] = True')]
+    res.inst(key, v.loc(), f'{len(trues)} skip decisions')
+    if len(trues) != 2:
+        res.find(key, v.loc(), f'_precheck skips under {len(trues)} conditions; expected: already added / base of the extension not installed')
+    for r in trues:
+        for g in r[2]:
+            if cell in g or not ("FROM lexicons" in g or g in ("$1.get('extends')",)):
+                res.find(key, v.loc(r[4]), f'_precheck skips a lexicon under `{g[:100]}`: the decision must depend only on look-ups in the '
+                                           f'`lexicons` table (and on the lexicon being an extension), not on the skip map or other state')
+
 RULES = [
     ('C05-R1', r1_cascade_closure, 40),
     ('C05-R2', r2_fk_enforcement, 3),
@@ -606,4 +645,5 @@ RULES = [
     ('C05-R13', r13_lexicon_lookups_by_id_and_version, 2),
     ('C05-R14', r14_importer_does_not_touch_its_input, 20),
     ('C05-R15', r15_remove_selects_what_the_specifier_means, 4),
+    ('C05-R16', r16_skip_depends_on_the_database_only, 1),
 ]
